@@ -272,7 +272,7 @@ def fill_command(chk, tier, rng):
         vol = [tk.new("tV%d" % i) for i in range(nv)]
         tab = [[tk.new("t_%d_%d" % (i, j)) for j in range(len(cols))] for i in range(nv)]
         table_lines = ["V " + " ".join(cols)] + [" ".join([vol[i]] + tab[i]) for i in range(nv)]
-        tail = ["", "lattice parameters"] + ["  ".join(tk.new("tL_%d_%d" % (i, a)) for a in range(3)) for i in range(nv)]
+        tail = ["lattice parameters"] + ["  ".join(tk.new("tL_%d_%d" % (i, a)) for a in range(3)) for i in range(nv)]
         text = "\n".join(head + table_lines + tail) + "\n"
         fn = os.path.join(tempfile.gettempdir(), "c17_fill_%d.dat" % os.getpid())
         with open(fn, "w") as fp:
@@ -375,7 +375,7 @@ def replay_fill_command(chk, system, cols, opts, what):
         vals["c12"] = [300.0 - 1e-7, 320.0 - 1e-7]       # (c11 - c12)/2 lies between the default and the requested drop tolerance
     spelled = any(canon_col(c) != c.lower() for c in cols)
     lines = ["comment", "400.000 2 123.456", "V " + " ".join(cols)] + ["%.3f " % v + " ".join("%.9f" % vals[canon_col(c)][i] for c in cols) for i, v in enumerate((400.0, 380.0))]
-    tail = ["", "lattice parameters", "5.1 5.2 5.3", "5.0 5.1 5.2"]
+    tail = ["lattice parameters", "5.1 5.2 5.3", "5.0 5.1 5.2"]
     fn = os.path.join(tempfile.gettempdir(), "c17_fillr_%d.dat" % os.getpid())
     with open(fn, "w") as fp:
         fp.write("\n".join(lines + tail) + "\n")
@@ -399,6 +399,10 @@ def replay_fill_command(chk, system, cols, opts, what):
             back = ed.read_elast_data(fn)
         except Exception as e:
             chk.violation("fill-command:not-a-table", "the output of cij fill is not a readable static table: %s: %s" % (type(e).__name__, e), dict(output=outl[:5]))
+            return
+        if [tuple(x) for x in back.lattice_parmeters] != [(5.1, 5.2, 5.3), (5.0, 5.1, 5.2)] or back.nv != 2 or abs(back.cellmass - 123.456) > 1e-9:
+            chk.violation("fill-command:frame-parse", "the output of cij fill parses with lattice block %s, count %s, cell mass %s instead of the input's"
+                          % (back.lattice_parmeters, back.nv, back.cellmass), dict(output=outl[:3] + outl[-4:]))
             return
         import warnings
         with warnings.catch_warnings():
